@@ -300,3 +300,12 @@ class AbstractParser:
 
     def __init__(self, table, key):
         self.table, self.key = table, key
+
+
+class FormParser:
+    """structs.Dwarf_dw_form[form]: the operand parser of an attribute form, abstract in K1: value and end are
+    functions of (bytes, position, form name, format, address size, version); the real form table is the K2
+    obligation per (format, address size, version)"""
+
+    def __init__(self, name, owner):
+        self.name, self.owner = name, owner          # name: z3 String term or python str
